@@ -14,6 +14,12 @@ from .core import BV
 OPTION = "std::option::Option::<T>::"
 
 
+def _ann(cb):
+    """return-value term of a closure/function body with the display names of its calls fixed (they are looked up in cb)"""
+    from . import terms
+    return terms.annotate_names(cb, cb.trace_local(0))
+
+
 def _unref(t):
     while t[0] in ("ref", "deref"):
         t = t[1]
@@ -147,17 +153,25 @@ def leaves(W, bv, t, bodies=None, depth=0):
                 cb = W.bv(clo[2])
                 if cb not in bodies:
                     bodies.append(cb)
-                return [("none",), ("some", simplify(lib.subst_params(cb.trace_local(0), [clo])))]
+                return [("none",), ("some", simplify(lib.subst_params(_ann(cb), [clo])))]
         if callee in ("core::bool::<impl bool>::then_some",) or callee.endswith("bool::then_some"):
             return [("none",), ("some", t[2][1])]
         if callee in lib.WRAPPERS and callee.split("::")[-1] in ("clone", "into", "from") and t[2]:
             return leaves(W, bv, t[2][0], bodies, depth + 1)
         if callee in (OPTION + "and_then", OPTION + "map") and len(t[2]) == 2:
             clo = _closure_of(t[2][1])
+            fnpath = _unref(t[2][1])
+            if clo is None and fnpath[0] == "const" and isinstance(fnpath[1], dict) and fnpath[1].get("def"):
+                # a function path instead of a closure: x.and_then(f) / x.map(f)
+                payload = payload_of(W, bv, t[2][0], bodies)
+                app = ("call", fnpath[1]["def"], [payload], None, fnpath[1]["def"].split("::")[-1])
+                if callee.endswith("and_then"):
+                    return [("none",), ("other", app)]
+                return [("none",), ("some", app)]
             if clo is not None and clo[2] in W.by_id:
                 cb = W.bv(clo[2])
-                payload = ("field", ("downcast", t[2][0], "Some"), "0", 0)
-                body = simplify(lib.subst_params(cb.trace_local(0), [clo, payload]))
+                payload = payload_of(W, bv, t[2][0], bodies)
+                body = simplify(lib.subst_params(_ann(cb), [clo, payload]))
                 if cb not in bodies:
                     bodies.append(cb)
                 if callee.endswith("and_then"):
@@ -182,6 +196,19 @@ def _match_paren(s, i):
             if d == 0:
                 return j
     return -1
+
+
+def payload_of(W, bv, x, bodies=None):
+    """Success payload of an Option-valued term: x.map(f) carries f(payload of x); anything else its Some field."""
+    y = _unref(x)
+    if y[0] == "call" and lib.norm(y[1]) == OPTION + "map" and len(y[2]) == 2:
+        clo = _closure_of(y[2][1])
+        if clo is not None and clo[2] in W.by_id:
+            cb = W.bv(clo[2])
+            if bodies is not None and cb not in bodies:
+                bodies.append(cb)
+            return simplify(lib.subst_params(_ann(cb), [clo, payload_of(W, bv, y[2][0], bodies)]))
+    return ("field", ("downcast", x, "Some"), "0", 0)
 
 
 def canon(s):
@@ -287,7 +314,7 @@ def value_alts(W, bv, t, depth=0):
                 clo = _closure_of(d)
                 if clo is not None and clo[2] in W.by_id:
                     cb = W.bv(clo[2])
-                    d = simplify(lib.subst_params(cb.trace_local(0), [clo]))
+                    d = simplify(lib.subst_params(_ann(cb), [clo]))
                     return out + value_alts(W, cb, d, depth + 1)
             return out + value_alts(W, bv, d, depth + 1)
     if t[0] == "field" and _unref(t[1])[0] == "downcast" and _unref(t[1])[2] in ("Some", "Ok", "Continue"):
